@@ -594,6 +594,17 @@ var c07Programs = []string{
 	"find all at least 1 (not in 'a' to 'e', ' ') line end",
 	"find all between 2 and 4 letter not letter",
 	"find all line start whole line",
+	// matches, captures and replacements that are the result of exactly ONE read (a value that aliases the reader's
+	// window instead of copying it goes wrong only here: concatenation copies)
+	"find all digit",
+	"find all 'QQ'",
+	"find all upper",
+	"find all (letter = l)",
+	"find all ('ZZ' = z) or (digit = d)",
+	"replace all digit with value",
+	"replace all 'QQ' with value matchNumber",
+	"find all any",
+	"find last 5 lower",
 	// several commands over the same file: every command reads the file afresh
 	"replace all 'QQ' with 'q'\nfind all 'ZZ'",
 	"replace all (at least 1 digit) = d with d d\nreplace all upper with '_'",
